@@ -1,6 +1,8 @@
 """C11 - Thread count and run-to-run nondeterminism never change a result."""
 import hashlib
 import os
+import shutil
+import tempfile
 import random
 import re
 
@@ -203,7 +205,9 @@ def run_case(desc, ctx):
         if jitter is not None:
             env['SKA_VERIF_JITTER'] = '%d:400' % jitter
         if tsan:
-            env['TSAN_OPTIONS'] = 'halt_on_error=0 exitcode=0 log_path=%s' % os.path.join(d, 'tsan')
+            # TSAN_OPTIONS is split at commas, spaces and colons: the log goes to a directory whose name has none of them
+            tlog = tempfile.mkdtemp(prefix='skatsan', dir='/dev/shm')
+            env['TSAN_OPTIONS'] = 'halt_on_error=0 exitcode=0 log_path=%s' % os.path.join(tlog, 'tsan')
         pre = ['taskset', '-c', '0'] if pinned else []
         th = ['--threads', threads]
         if cmd == 'build':
@@ -229,14 +233,15 @@ def run_case(desc, ctx):
         result = {'rc': p.returncode, 'stderr': p.stderr[-300:], 'schedule': sig, 'items': nitems, 'threads_seen': nthr, 'split': split}
         if tsan:
             reports = 0
-            for fn in os.listdir(d):
+            for fn in os.listdir(tlog):
                 if fn.startswith('tsan'):
-                    txt = open(os.path.join(d, fn), errors='replace').read()
+                    txt = open(os.path.join(tlog, fn), errors='replace').read()
                     for block in txt.split('WARNING: ThreadSanitizer: data race')[1:]:
                         reports += 1
                         frames = re.findall(r'#\d+ (\S+)', block)[:6]
                         result.setdefault('tsan_reports', []).append(frames)
             result['tsan'] = reports
+            shutil.rmtree(tlog, ignore_errors=True)
         # comparable form of the result
         if p.returncode == 0:
             if cmd in ('build', 'build-reads', 'build-auto'):
